@@ -39,14 +39,17 @@ func NewSolicitMountedStreamWithErr(err error) SolicitMountedStream {
 
 // AcceptMountedStream claims ownership of the stream.
 func (s *solicitMountedStream) AcceptMountedStream() (link.MountedStream, bool, error) {
-	if s.err != nil {
-		return nil, false, s.err
-	}
 	verifhook.Yield("solicit:accept-checked")
 
+	// err is written by Close under the mutex: check it under the mutex as
+	// well, otherwise a Close between the check and the lock lets this call
+	// hand out a stream that was just closed.
 	s.mu.Lock()
 	defer s.mu.Unlock()
 
+	if s.err != nil {
+		return nil, false, s.err
+	}
 	if s.accepted {
 		return nil, true, nil
 	}
